@@ -235,8 +235,11 @@ def coq_eval(workdir, name, text, timeout=900):
     with open(path, "w") as f:
         f.write("From Coq Require Import String.\nFrom TaskctlV Require Import Corr.Hex.\n" + text)
     # generated cases may hold byte lists of 64 KiB: coqc needs more than the default 8 MiB stack to read them
-    rc, out = sh("ulimit -s 1000000 2>/dev/null || ulimit -s unlimited 2>/dev/null; exec coqc -Q '%s' TaskctlV '%s'" % (os.path.join(COQ, "theories"), path),
-                 cwd=workdir, timeout=timeout)
+    cmd = "ulimit -s 1000000 2>/dev/null || ulimit -s unlimited 2>/dev/null; exec coqc -Q '%s' TaskctlV '%s'" % (os.path.join(COQ, "theories"), path)
+    rc, out = sh(cmd, cwd=workdir, timeout=timeout)
+    if rc != 0 and "[timeout after" in out:
+        # an evaluation that normally takes seconds: the machine is overloaded - once more, with three times the allowance
+        rc, out = sh(cmd, cwd=workdir, timeout=3 * timeout)
     return rc, out
 
 
